@@ -478,6 +478,10 @@ func (g *Gen) scalarExpr(sc scope) string {
 			}
 			return "p." + pick(g.r, []string{"Name", "Age", "Upper", "nick", "Tags", "PtrLen", "nope", "ID", "slug", "Base", "Slug"})
 		}
+		if g.r.Chance(0.5) { // a whole binding printed as it is
+			all := append(append(append([]string{"p", "d", "q"}, sc.maps...), sc.arrs...), sc.anys...)
+			return pick(g.r, all)
+		}
 		if len(sc.maps) > 0 {
 			return pick(g.r, sc.maps) + ".size"
 		}
